@@ -21,6 +21,12 @@ N_RANDOM = {"quick": 3000, "thorough": 60000}
 
 BLUR_CONFIGS = [Config(usage=True, blur=b, allow_list=(i % 2 == 0)) for i, b in enumerate([1, 7, 60, 61, 97, 3600, 86400])]
 USAGE_CONFIGS = [c for c in CONFIGS if c.usage]
+# C17: every combination of the three configured welcome notices (present / absent), some with non-ASCII text
+WELCOME_CONFIGS = [Config(usage=bool(i % 2), blur=[None, 60][i % 3 == 0], allow_list=bool(i % 4 < 3),
+                          motd=["hello", "m\u00f6td \u2603 \"quoted\""][(i >> 1) & 1] if i & 1 else None,
+                          advertise=["1.2.3", "0.0.0-\u00fc"][(i >> 2) & 1] if i & 2 else None,
+                          signal_error=["go away", "\u00e9rreur: 100%"][i & 1] if i & 4 else None)
+                   for i in range(8)] + [Config(usage=False, motd="", advertise=None, signal_error=None)]
 
 
 def jobs(pid, tier, seed):
@@ -43,6 +49,8 @@ def configs_for(pid):
         return BLUR_CONFIGS
     if p.get("usage_only"):
         return USAGE_CONFIGS
+    if pid == "C17":
+        return WELCOME_CONFIGS
     return CONFIGS
 
 
